@@ -574,6 +574,33 @@ func ruleS5s(c *Ctx) {
 	}
 	cc := typeSwitchClause(p.TypesInfo, fd, "StringFactor")
 	if cc == nil {
+		// no clause names the string factor: it takes the default clause of the switch over the
+		// factor kinds (the one with a NumberFactor clause)
+		if sib := typeSwitchClause(p.TypesInfo, fd, "NumberFactor"); sib != nil {
+			ast.Inspect(fd.Body, func(n ast.Node) bool {
+				ts, ok := n.(*ast.TypeSwitchStmt)
+				if !ok {
+					return true
+				}
+				mine := false
+				var def *ast.CaseClause
+				for _, st := range ts.Body.List {
+					k := st.(*ast.CaseClause)
+					if k == sib {
+						mine = true
+					}
+					if k.List == nil {
+						def = k
+					}
+				}
+				if mine && def != nil {
+					cc = def
+				}
+				return true
+			})
+		}
+	}
+	if cc == nil {
 		c.anchorMissing("S5s", "(*ImmExp).Eval: case *StringFactor")
 		return
 	}
